@@ -97,6 +97,15 @@ REGISTRY["C08"] = {
             "(semaphore value, tokens, buffer fill, delay <= 0, input length) are symbolic; oracle: effectively cancelled => raises and no effect; otherwise yields at least once.",
     "note": "Trusted: z3, CrossHair, CPython's C Task/Future, VLoop stubs. Outside: to_thread.run_sync outside a cancelled scope (real thread), uvloop, trio.",
 }
+REGISTRY["C14"] = {
+    "harnesses": ["symx.harness.c14_thread"],
+    "level": "model_checking",
+    "text": "PARTIAL (loop side only): bounded symbolic model checking of the real run_sync_in_worker_thread / WorkerThread.run / _report_result / check_cancelled code on the virtual loop, "
+            "with the OS thread replaced by an environment action that executes the real WorkerThread.run() body at a symbolic instant; 1-3 callers, limiter total, start times, "
+            "thread-completion instants, cancel instant (incl. before the call and in the entry checkpoint) and return values symbolic; abandon_on_cancel on/off. "
+            "Oracle: value/exception identity, context variables, #running <= tokens, token given back on every path, deferred cancellation, check_cancelled().",
+    "note": "Trusted: z3, CrossHair, C Task/Future, VLoop stubs, the thread stub (function runs atomically at the chosen instant). NOT covered: real thread interleavings, from_thread.run/run_sync from inside the function, idle-worker pruning, uvloop, trio.",
+}
 
 NOT_APPLICABLE = {
     "C17": "TLS record framing/fragmentation/truncation happens inside OpenSSL (ssl.SSLObject/MemoryBIO, C code): no available engine can execute it symbolically, and a stub would make the check a statement about the stub (DESIGN.md section 3, C17).",
